@@ -10,6 +10,8 @@ def run(rep, tier, seed):
     feed(rep, linalg_checks.c07_all, 7000 + seed, tier, 'linear algebra table',
          'dot over every rank combination (1-D/2-D/N-D) and operand kind (UTPM,UTPM / UTPM,ndarray / ndarray,UTPM), outer (equal and different lengths), inv, solve (vector and multi-column right-hand sides, constant operands, base matrices that need row pivoting), det (Leibniz expansion in independent truncated arithmetic), logdet, trace, expm inside the Pade range (against the exponential series propagated in independent arithmetic); residuals A inv(A) = I and A X = B formed by bounded/polyarith.py, different base matrices per direction; higher coefficients dense, linear-only (A_0 + t A_1), with a gap (A_1 = 0) and constant',
          'sizes <= 3, D <= 5, P <= 3', lambda c: ('linalg:%s' % c['fn'], str(c.get('kinds', '')) + str(c.get('shapes', c.get('n', '')))))
+    from .opbased import integer_part
+    integer_part(rep, 'C07', tier, seed, ('linalg',))
     rep.assume(*[ASSUME[k] for k in ('A3', 'A5', 'A6', 'A8', 'A9', 'A11')], 'approximation error of the Pade approximant in expm is outside this family (only the propagation of the Taylor coefficients through it is checked)')
     rep.extra['explanation'] = 'proved: the explicit (d,p,c) loops of _dot, _dot_non_UTPM_x/_y, _outer*, _inv, _solve* with matrices as elements of an uninterpreted non-commutative ring (all sizes N at once); bounded: rank logic of UTPM.dot/outer/solve, det/logdet (compositions over LU), expm'
     return rc
